@@ -21,20 +21,20 @@ import (
 )
 
 type act struct {
-	Name    string `json:"name"`
-	N       int    `json:"n"`
-	F       []int  `json:"f"`
-	R       []int  `json:"r"`
-	Size    int    `json:"size"`
-	Refused bool   `json:"refused"`
-	Fwd     []int  `json:"fwd"`
-	Ret     []int  `json:"ret"`
-	Dir     string `json:"dir"`
-	Hop     int    `json:"hop"`
-	Before  []int  `json:"before"`
-	Recv    int    `json:"recv"`
-	Label   int    `json:"label"`
-	After   []int  `json:"after"`
+	Name    string          `json:"name"`
+	N       int             `json:"n"`
+	F       []int           `json:"f"`
+	R       []int           `json:"r"`
+	Size    int             `json:"size"`
+	Refused bool            `json:"refused"`
+	Fwd     []int           `json:"fwd"`
+	Ret     []int           `json:"ret"`
+	Dir     string          `json:"dir"`
+	Hop     int             `json:"hop"`
+	Before  []int           `json:"before"`
+	Recv    int             `json:"recv"`
+	Label   int             `json:"label"`
+	After   []int           `json:"after"`
 	Want    json.RawMessage `json:"want"`
 }
 
@@ -46,7 +46,8 @@ type runner struct {
 	src    string
 	f, r   []int
 	sp     *m.SwitchPath
-	buf    []byte // guard | block | guard
+	reuse  *m.SwitchPath // != nil: build on this value (it already holds blocks of an earlier path)
+	buf    []byte        // guard | block | guard
 	block  []byte
 	events *[]any
 	drift  *int
@@ -118,6 +119,12 @@ func (rn *runner) build(f, r []int, refusedWant bool, sizeWant int, fwdWant, ret
 		hops[i] = m.SwitchHop{ForwardLabel: m.SwitchLabel(f[i]), ReturnLabel: m.SwitchLabel(r[i])}
 	}
 	rn.sp = &m.SwitchPath{Hops: hops}
+	if rn.reuse != nil {
+		// the SAME SwitchPath value gets other hops and is built again (a route that is re-learned, a copied entry):
+		// its blocks are a function of the hops alone, whatever it held before
+		rn.sp = rn.reuse
+		rn.sp.Hops = hops
+	}
 	var err error
 	panicked, pv, _ := vf.NoPanic(func() { err = rn.sp.BuildBlocks() })
 	rn.c.Eval(1)
@@ -490,8 +497,12 @@ func run(c *vf.Ctx) {
 			return 1 + rng.Intn(65535)
 		}
 	}
+	var prevSP *m.SwitchPath
 	for k := 0; k < nT; k++ {
 		n := 2 + rng.Intn(39)
+		if k%3 != 0 && prevSP != nil {
+			n = 2 + rng.Intn(max(1, len(prevSP.Hops)-1)) // mostly shorter than what the value held before
+		}
 		if k%7 == 0 {
 			n = 41 + rng.Intn(61)
 		}
@@ -513,8 +524,29 @@ func run(c *vf.Ctx) {
 			}
 		}
 		rn := &runner{c: c, src: "go-prng", drift: &drift, events: &events}
+		switch {
+		case prevSP != nil && k%3 == 1:
+			rn.reuse = prevSP // rebuilt in place
+		case prevSP != nil && k%3 == 2:
+			cp := *prevSP // a struct copy shares the old blocks' memory
+			rn.reuse = &cp
+		}
+		var before *m.SwitchPath
+		var beforeF, beforeR []byte
+		if k%3 == 2 && prevSP != nil {
+			before = prevSP
+			beforeF, beforeR = append([]byte(nil), prevSP.ForwardBlock...), append([]byte(nil), prevSP.ReturnBlock...)
+		}
 		need := specSize(f, r)
-		if rn.build(f, r, need > 255, need, nil, nil) {
+		built := rn.build(f, r, need > 255, need, nil, nil)
+		if before != nil && (!bytes.Equal(before.ForwardBlock, beforeF) || !bytes.Equal(before.ReturnBlock, beforeR)) {
+			c.Violation(vf.Key("rebuild", "copy-overwrites-original"), fmt.Sprintf("building a copy of a path (new hops f=%v r=%v) changed the blocks of the path it was copied from: fwd %v -> %v", f, r, beforeF, before.ForwardBlock), map[string]any{"f": f, "r": r}, nil)
+		}
+		prevSP = nil
+		if built {
+			prevSP = rn.sp
+		}
+		if built {
 			okk := true
 			for i := 0; i < n && okk; i++ {
 				okk = rn.rotate(r[i], f[i], nil, "fwd", i+1)
